@@ -29,6 +29,19 @@ claim('C17',
       COMMON_NOTE + ' Left open: fractional positions, case mapping outside Latin-1, text > 32767.',
       '§7 C17')
 
+claim('C01',
+      'TLA+ spec XlSyntax (Climb grammar, shunting-yard design, Render) + XlEval; TLC enumerates every ordered operator pair/triple, '
+      'tree shapes with minimal/redundant parentheses, literal spellings and gaps, checks ShuntingYard = Climb and that wrong '
+      'precedence tables are rejected; dump replayed through compiled models; seeded deep formulas validated by TLC (Trace_Formula)',
+      'Exhaustive over all 12x12 ordered operator pairs (x 8 unary-minus placements x 8 assignments incl. booleans so that every '
+      'non-associative pair is discriminated - an ASSUME checked by TLC), all 12^3 triples, the 5 tree shapes of each triple with '
+      'minimal and redundant parentheses, literal spellings (plain, decimal, percent, scientific) and blank/newline gaps; expected '
+      'value = Eval of the tree the declarative grammar (rightmost lowest-precedence operator) assigns; the shunting-yard design is '
+      'shown equal to that grammar and two wrong tables are shown to violate it. Seeded formulas with up to 8 operators are '
+      'evaluated by the library and validated by TLC, which also re-renders each generated tree to hold the generator to the spec.',
+      COMMON_NOTE + ' Left open: 0^0, fractional exponents, overflow, date-looking text in arithmetic, % after a non-literal (C02).',
+      '§7 C01')
+
 ALL = ['C%02d' % i for i in range(1, 21)]
 
 
